@@ -10,7 +10,14 @@
   the gene satisfies the group itself, a minscore only when the gene's own score suffices.
 -/
 import ASV.Model.Rules
+import ASV.Spec.Bases
 namespace ASV.Rules
+
+/-- the environment of the *documented* meaning: "closer than the cutoff" is measured on the sets
+    of bases (number of bases strictly between, the shorter way round on a ring) -/
+def Env.ofLocsSpec (genes withHits : List Gene) (hits : Gene → List (Prof × Int)) (loc : Gene → Loc)
+    (cutoff circ : Int) : Env :=
+  { genes, withHits, hits, cutoff, dist := fun g h => specDistFull circ (loc g) (loc h) }
 
 /-- the genes "in range" of `g`: every other gene of the record window closer than the cutoff -/
 def Env.near (e : Env) (g : Gene) : List Gene :=
